@@ -303,6 +303,8 @@ structure Info where
   templateLines : List Str
   /-- `info.template_filename or info.template_uri or filename` -/
   templateFilename : Str
+  /-- `info.source`: the template text (`templateLines = linesOf source`) -/
+  source : Str := []
 deriving DecidableEq, Repr
 
 /-- `template_lines = [line_ for line_ in template_source.split("\n")]` -/
@@ -330,6 +332,30 @@ def rewrite (reg : Registry) (f : Frame) : Option Record :=
       let line :=
         if tl ≤ info.templateLines.length then pyGet info.templateLines ((tl : Int) - 1) else none
       some ⟨f, some (info.templateFilename, tl, line)⟩
+
+/-- The 8th element of a record, `template_source`, as the loop of `_init` assigns it.  The per-file cache
+    `mods` keeps `line_map`, `template_lines`, `template_filename`; whether it also keeps the template source
+    is the parameter `keeps` (read off mako/exceptions.py by the harness: the arity of the tuple stored in
+    `mods[filename]`).  Without it the local variable `template_source` is set only on a MISS of the cache, and
+    on a hit the record gets whatever the variable holds – the source of the template module that was seen
+    *last for the first time*.  State: the cache (file name ↦ source) and the current value of the variable. -/
+def srcStep (keeps : Bool) (reg : Registry) (st : List (Str × Str) × Option Str) (f : Frame) :
+    (List (Str × Str) × Option Str) × Option Str :=
+  match st.1.lookup f.filename with
+  | some own => if keeps then ((st.1, some own), some own) else (st, st.2)
+  | none =>
+    match reg.lookup f.filename with
+    | none => (st, none)
+    | some info => (((f.filename, info.source) :: st.1, some info.source), some info.source)
+
+def sourcesFrom (keeps : Bool) (reg : Registry) : List (Str × Str) × Option Str → List Frame → List (Option Str)
+  | _, [] => []
+  | st, f :: fs => (srcStep keeps reg st f).2 :: sourcesFrom keeps reg (srcStep keeps reg st f).1 fs
+
+/-- the source attached to each record (`none` for a plain frame); `.source` of the `RichTraceback` is the
+    one of the record `pickLine` chooses -/
+def recordSources (keeps : Bool) (reg : Registry) (fs : List Frame) : List (Option Str) :=
+  sourcesFrom keeps reg ([], none) fs
 
 /-- `records` (or `none` if some frame raises) -/
 def records (reg : Registry) (fs : List Frame) : Option (List Record) := fs.mapM (rewrite reg)
